@@ -13,13 +13,35 @@ from vlib.reffix import ref_parse
 from vlib.runner import derive_seed
 from vlib.simnet import Recorder, World
 
-STEPS = ["app-out", "app-in", "testreq-out", "testreq-in", "hb-out", "hb-in", "app-out", "app-in"]
+STEPS = ["app-out", "app-in", "testreq-out", "testreq-in", "hb-out", "hb-in", "app-out", "app-in", "app-in-g"]
 ENDS = [None, "logout-out", "logout-in"]
 DROP = {"9", "10", "52"}
 
 
 class RecConn(Recorder, AsyncFIXConnection):
     pass
+
+
+class InitiatorProtocol(FIXProtocol44):
+    """The initiator's own protocol definition: the stock table plus a group it does not list (NoContraBrokers)."""
+
+    repeating_groups = {**FIXProtocol44.repeating_groups, "382": ["375", "337", "437", "438", "655"]}
+
+
+assert "382" not in FIXProtocol44.repeating_groups
+
+
+def app_msg_group(uid):
+    m = app_msg(uid, "g")
+    m.set_group(382, [{375: "BRK1", 337: "T1", 437: "5"}, {375: "BRK2", 437: "7"}])
+    return m
+
+
+def _content(msg):
+    try:
+        return _flat(msg)
+    except Exception as e:  # what the application would hit when it reads the message
+        return ("unreadable", type(e).__name__)
 
 
 def norm_frames(frames):
@@ -58,7 +80,7 @@ def callbacks(ep):
     out = []
     for kind, payload, _t in ep.events:
         if kind == "msg":
-            out.append(("msg", payload.get(11, None)))
+            out.append(("msg", payload.get(11, None), _content(payload) if str(payload.get(11, "")).startswith("g") else None))
         elif kind == "state":
             out.append(("state", ConnectionState(payload).name))
         elif kind == "logon":
@@ -78,7 +100,7 @@ def run_helper(script, n_out, n_in, hb):
         if (n_out, n_in) != (1, 1):
             ses = j.create_or_load("ACCEPTOR", "INITIATOR")
             j.set_seq_num(ses, next_num_out=n_out, next_num_in=n_in)
-        conn = RecConn(FIXProtocol44(), "INITIATOR", "ACCEPTOR", j, "localhost", "64444", heartbeat_period=hb)
+        conn = RecConn(InitiatorProtocol(), "INITIATOR", "ACCEPTOR", j, "localhost", "64444", heartbeat_period=hb)
         conn._rec_init(w, "c")
         conn._connection_state = ConnectionState.NETWORK_CONN_ESTABLISHED
         ft = FIXTester(schema=None, connection=conn)
@@ -106,6 +128,8 @@ def run_helper(script, n_out, n_in, hb):
                 call(conn.send_msg(app_msg(uid, "o")))
             elif stp == "app-in":
                 call(ft.reply(app_msg(uid, "i")))
+            elif stp == "app-in-g":
+                call(ft.reply(app_msg_group(uid)))
             elif stp == "testreq-out":
                 conn._test_req_id = None
                 call(conn.send_test_req())
@@ -142,6 +166,9 @@ def run_real(script, n_out, n_in, hb):
         s = w.make_server(journal=sj, hb=hb, sender="ACCEPTOR", target="INITIATOR")
         c = w.make_client(journal=cj, hb=hb, sender="INITIATOR", target="ACCEPTOR")
         c.auto_logon = False
+        from asyncfix.codec import Codec
+
+        c._codec = Codec(InitiatorProtocol())  # the same initiator as in the helper run: its own protocol definition
         w.connect_client()
         ft = FIXTester(schema=None)  # only as a message factory
         trace = []
@@ -175,6 +202,8 @@ def run_real(script, n_out, n_in, hb):
                 call(c.send_msg(app_msg(uid, "o")))
             elif stp == "app-in":
                 call(s.send_msg(app_msg(uid, "i")))
+            elif stp == "app-in-g":
+                call(s.send_msg(app_msg_group(uid)))
             elif stp == "testreq-out":
                 c._test_req_id = None
                 call(c.send_test_req())
@@ -243,7 +272,7 @@ def compare(acc, script, n_out, n_in, hb, origin):
         ca, cb = cut(ca), cut(cb)
     if ca != cb:
         bad("callbacks", f"initiator callbacks differ: helper {ca} vs real {cb}")
-    both = any(s in ("app-in", "testreq-in", "hb-in") for s in script) and any(s in ("app-out", "testreq-out", "hb-out") for s in script)
+    both = any(s in ("app-in", "app-in-g", "testreq-in", "hb-in") for s in script) and any(s in ("app-out", "testreq-out", "hb-out") for s in script)
     acc.case(("fidelity", tuple(script), n_out, n_in, hb) if both else None, cls=["fidelity", f"fidelity/origin={origin}", "fidelity/asymmetric-counters" if n_out != n_in else "fidelity/symmetric"],
              sample={"fidelity_script": list(script), "start_out_in": [n_out, n_in], "frames_each_way": [len(B["sent"]), len(B["recv"])]} if both and len(acc.samples) < 8 and len(script) > 4 else None)
 
@@ -256,7 +285,7 @@ def fidelity_shard(acc, n, seed, maxlen):
 
 def fidelity_fixed(acc):
     for counters in ((1, 1), (5, 3), (3, 5)):
-        for script in (["logon"], ["logon", "app-out", "app-in", "testreq-out", "testreq-in", "hb-out", "hb-in"], ["logon", "app-in", "app-in", "app-out", "logout-out"],
+        for script in (["logon"], ["logon", "app-out", "app-in", "testreq-out", "testreq-in", "hb-out", "hb-in"], ["logon", "app-in", "app-in", "app-out", "logout-out"], ["logon", "app-in-g", "app-out", "app-in-g"],
                        ["logon", "testreq-in", "app-out", "logout-in"], ["logon", "logout-out"], ["logon", "logout-in"]):
             compare(acc, script, counters[0], counters[1], 30, "fixed")
 
